@@ -95,7 +95,7 @@ pub fn scenarios(quick: bool) -> Vec<Scenario> {
     let names: Vec<&str> = if false {
         vec![]
     } else {
-        vec!["rgb-130x130-groups-tocrev", "rgb-130x130-groups-localtree", "rgb-300x200-groups-unequal-localtrees", "gray-70x40-squeeze-2pass", "rgb12-49x19-squeeze-hv", "anim-12x10-3kf", "anim-12x10-muladd-mul", "ref-then-blend-alpha16", "layers-chain-two-kf", "anim-4x4-six-frames", "rgba-9x7-ans-rct", "vardct-ycbcr-48x40-gab-epf", "vardct-ycbcr-40x24-noise", "vardct-420-40x24", "vardct-422-33x17-gab-epf", "rgba-24x20-patches", "rgba-up2-21x13", "vardct-ycbcr-40x24-up4-epf", "vardct-264x40-2groups-gab-epf", "vardct-520x24-3groups-420", "vardct-260x264-4groups", "vardct-lfframe-40x24", "vardct-lfframe-264x40-2groups-epf", "rgb-40x24-splines", "vardct-40x24-splines-noise"]
+        vec!["rgb-130x130-groups-tocrev", "rgb-130x130-groups-localtree", "rgb-300x200-groups-unequal-localtrees", "gray-70x40-squeeze-2pass", "rgb12-49x19-squeeze-hv", "anim-12x10-3kf", "anim-12x10-muladd-mul", "ref-then-blend-alpha16", "layers-chain-two-kf", "anim-4x4-six-frames", "rgba-9x7-ans-rct", "vardct-ycbcr-48x40-gab-epf", "vardct-ycbcr-40x24-noise", "vardct-420-40x24", "vardct-422-33x17-gab-epf", "rgba-24x20-patches", "rgba-up2-21x13", "vardct-ycbcr-40x24-up4-epf", "vardct-264x40-2groups-gab-epf", "vardct-520x24-3groups-420", "vardct-260x264-4groups", "vardct-lfframe-40x24", "vardct-lfframe-264x40-2groups-epf", "rgb-40x24-splines", "vardct-40x24-splines-noise", "vardct-512x128-dct128-2groups-gab-epf", "vardct-512x136-dct64x128-2groups", "vardct-512x256-dct256-2groups", "vardct-520x256-dct128x256-3groups", "vardct-300x72-dct64-2groups"]
     };
     for n in names {
         v.push(Scenario { name: n.to_string(), bytes: get(n) });
@@ -113,8 +113,37 @@ pub fn scenarios(quick: bool) -> Vec<Scenario> {
     v
 }
 
+/// Race-detector side pass (binary built with ThreadSanitizer): one child process per (scenario, pool size) so that
+/// process-global lazily built tables are cold each time; the child renders with a real rayon pool.
+fn tsan_child(name: &str, threads: usize) -> ! {
+    let scs = scenarios(false);
+    let sc = scs.iter().find(|s| s.name == name).unwrap_or_else(|| crate::explore::machinery_failure(&format!("no scenario {name}")));
+    let r = render_all(&sc.bytes, JxlThreadPool::rayon(Some(threads)));
+    println!("{}", r.join(" "));
+    std::process::exit(0)
+}
+
+/// The race-detector side pass (see `tsan.rs`): every scenario with real rayon pools.
+fn tsan_jobs(quick: bool) -> Vec<(String, Vec<String>)> {
+    let scs = scenarios(quick);
+    let sizes: Vec<usize> = if quick { vec![2, 4] } else { vec![2, 3, 4, 8, 16] };
+    let reps = if quick { 1 } else { 3 };
+    let mut jobs = vec![];
+    for sc in &scs {
+        for &n in &sizes {
+            for _ in 0..reps {
+                jobs.push((format!("{} with a rayon pool of {n} threads", sc.name), vec!["C07".to_string(), "--tsan-child".into(), sc.name.clone(), n.to_string()]));
+            }
+        }
+    }
+    jobs
+}
+
 pub fn main(args: &crate::Args) {
     crate::util::install_panic_hook();
+    if args.rest.first().map(|s| s == "--tsan-child").unwrap_or(false) {
+        tsan_child(&args.rest[1], args.rest[2].parse().unwrap());
+    }
     if let Some(p) = &args.replay {
         replay(p);
     }
@@ -206,9 +235,11 @@ pub fn main(args: &crate::Args) {
     rep.extra.insert("distinct_task_orders".into(), json!(n_orders));
     rep.extra.insert("rayon_supporting_runs".into(), json!(rayon_runs));
     rep.extra.insert("max_pick_points".into(), json!(outs.iter().map(|o| o.max_picks).max().unwrap_or(0)));
+    // the race-detector side pass; its summary and any race found belong to this evidence
+    crate::tsan::raise(&mut rep, crate::tsan::pass(&tsan_jobs(quick), "every scenario rendered twice with real rayon pools"));
     rep.exhaustive = true;
     rep.assumptions = vec![
-        "the Verif pool runs tasks one at a time: it decides order-dependence (which task finishes first/last, which background render happens when, stale scratch), not true data races; races are only reached by the free-running rayon runs, which are sampling and labelled as supporting".into(),
+        "the Verif pool runs tasks one at a time: it decides order-dependence (which task finishes first/last, which background render happens when, stale scratch), not true data races; that scheduling points at pool operations suffice is checked separately: the same scenarios rendered free-running with real rayon pools under ThreadSanitizer (fresh process per run, so lazily built process-global tables are cold); a data race with a frame in /repo code is a violation. That pass and the plain rayon runs are sampling over schedules and labelled as supporting".into(),
         "states reported = distinct task orders executed".into(),
     ];
     rep.finish();
@@ -217,6 +248,9 @@ pub fn main(args: &crate::Args) {
 fn replay(path: &str) -> ! {
     let s = std::fs::read_to_string(path).unwrap_or_else(|e| crate::explore::machinery_failure(&format!("{path}: {e}")));
     let v: serde_json::Value = serde_json::from_str(&s).unwrap();
+    if v["family"] == "tsan" {
+        crate::tsan::replay("C07", path, &v);
+    }
     let bytes = crate::report::unhex(v["stream_hex"].as_str().unwrap());
     let reference = render_all(&bytes, JxlThreadPool::none());
     let got = if let Some(n) = v.get("rayon_threads").and_then(|x| x.as_u64()) {
